@@ -396,6 +396,17 @@ PROBES = [
      # *other* difference on this axis must still alarm
      '<nx><xsl:for-each select="//*"><n t="{name()}" c="{count(namespace::*[name() != \'xml\'])}"><xsl:for-each select="namespace::*[name() != \'xml\']"><xsl:sort select="name()"/>'
      '<ns p="{name()}" u="{.}" on="{name(..)}"/></xsl:for-each></n></xsl:for-each><r y="{count(//namespace::*[name() != \'xml\'])}" z="{count(//namespace::p | //namespace::q)}"/></nx>', ""),
+    ("src-info",
+     # what a source form carries beyond the element tree: DTD default / fixed attribute values, ID-ness, entity-expanded
+     # text, xml:lang / xml:space inheritance, the document's base URI
+     '<si d="{count(//@dflt)}:{count(//@fx)}:{//n[1]/@dflt}:{(//n[@dflt != \'def-val\'])[1]/@dflt}" idn="{name(id(\'n1\'))}:{count(id(\'n1 r1 zz\'))}" '
+     'tx="{//n[1]}" ntx="{string-length(//n[1])}" ct="{count(//n[1]/text())}" lg="{count(//*[lang(\'de\')])}:{count(//*[lang(\'en\')])}" '
+     'rel="{document(\'rel.xml\', /)/rel}">'
+     '<xsl:for-each select="//*[@xml:space]"><sp v="{@xml:space}" t="{count(text())}" d="{count(.//text())}"/></xsl:for-each></si>', ""),
+    ("unparsed",
+     # DTD-declared unparsed (NDATA) entities, by literal name and through ENTITY-typed attributes
+     '<ue ue1="{unparsed-entity-uri(\'pic1\')}" ue2="{unparsed-entity-uri(\'pic2\')}" ue0="{unparsed-entity-uri(\'nope\')}" uet="{unparsed-entity-uri(\'txt\')}">'
+     '<xsl:for-each select="//*[@img]"><e n="{@img}" u="{unparsed-entity-uri(@img)}"/></xsl:for-each></ue>', ""),
     ("id-lang",
      '<il><xsl:for-each select="//*[lang(\'en\')]"><n t="{name()}"/></xsl:for-each></il>', ""),
 ]
@@ -462,9 +473,27 @@ OTHER_XSL = ('<?xml version="1.0"?>\n<xsl:stylesheet version="1.0" xmlns:xsl="ht
              '<xsl:template match="/"><wrong-stylesheet/></xsl:template></xsl:stylesheet>\n')
 
 
+def dtd_rich(r):
+    """internal DTD subset with notations, unparsed (NDATA) entities, an internal text entity, an entity holding an element, ID /
+    ENTITY / defaulted / #FIXED attributes; no CDATA sections, entity references are expanded by every parser configuration
+    used: may be given as a DOM.  returns (doctype, body, extra root attributes)"""
+    doctype = ('<!DOCTYPE r [\n<!NOTATION gif SYSTEM "image/gif">\n<!NOTATION jpg PUBLIC "-//X//NOTATION JPG//EN" "viewer.exe">\n'
+               '<!ENTITY pic1 SYSTEM "pics/one.gif" NDATA gif>\n<!ENTITY pic2 SYSTEM "http://example.org/img/two.jpg" NDATA jpg>\n'
+               '<!ENTITY txt "expanded &amp; text">\n<!ENTITY el "<c id=\'ie\'>from entity</c>">\n'
+               '<!ATTLIST n x ID #IMPLIED img ENTITY #IMPLIED dflt CDATA "def-val" fx CDATA #FIXED "fixed">\n'
+               '<!ATTLIST r x ID #IMPLIED>\n]>\n')
+    ids = r.shuffle(["n1", "n2", "n3"])
+    parts = ['<n img="pic1" x="%s">a&txt;b</n>' % ids[0],
+             '<n img="pic2" dflt="given" x="%s">%s</n>' % (ids[1], r.choice(["", "q&txt;", "&txt;&txt;"])),
+             '&el;',
+             '<n xml:lang="de" xml:space="preserve"> <n/> \n<n xml:space="default" xml:lang="en-GB"> <n x="%s"/> </n></n>' % ids[2]]
+    body = "".join(parts[:2]) + "".join(r.shuffle(parts[2:]))
+    return doctype, body, ' x="r1"'
+
+
 def gen_case(r, i, absdir):
     """returns dict(xml, xsl, mode, cls, probes).  absdir: directory the files will be written to (for the PI href)"""
-    cls = r.weighted([("order", 12), ("cdata-entity", 3), ("strip", 2), ("error", 1), ("big", 2), ("dtd-id", 3)])
+    cls = r.weighted([("order", 12), ("cdata-entity", 3), ("strip", 2), ("error", 1), ("big", 2), ("dtd-id", 3), ("dtd-rich", 4)])
     budget = [r.range(4, 14) if cls != "big" else r.range(40, 90)]
     body = gen_doc_tree(r, r.range(2, 4), budget)
     rootattrs = ' xmlns:p="urn:p" id="i0"'
@@ -484,6 +513,10 @@ def gen_case(r, i, absdir):
                 "".join('<n x="%s"%s>t%s<n x="in%s"/></n>' % (i, (' ref="%s"' % r.choice(ids)) if r.chance(1, 2) else "", i, i) for i in ids[:r.range(2, 4)]) +
                 '<n refs="in%s n9"/>' % ids[0])
         rootattrs += ' x="r1"'
+    if cls == "dtd-rich":
+        doctype, body2, ra = dtd_rich(r)
+        body = body2 + body
+        rootattrs += ra
     misc = r.choice(["", "<!--top-->\n", "<?toppi x?>\n"])
     pivar = r.weighted([("base", 4), ("href-first", 3), ("single-quotes", 2), ("spaces", 2), ("extras", 3), ("extras-href-first", 2),
                         ("text-xml", 1), ("application-xml", 1), ("two-xsl", 2), ("after-misc", 2), ("nl-sep", 1), ("css-first", 1),
@@ -498,6 +531,17 @@ def gen_case(r, i, absdir):
         # a Xerces DOM exposes the DOCTYPE as a child node of the document (known finding C05-dom-doctype-node, exercised by its
         # own corpus case): keep node()-counting probes out of these cases so that any *other* difference still alarms
         probes = [p for p in probes if p[0] not in ("preceding", "last-first", "text-nodes")] or [byname["union-order"]]
+    nodom_unparsed = False
+    if cls == "dtd-rich":
+        probes = [p for p in probes if p[0] not in ("src-info", "unparsed")] + [byname["src-info"]]
+        # unparsed-entity-uri() is empty on every Xerces-DOM source (known finding C05-dom-unparsed-entity-uri, own corpus
+        # case): generated cases observe it on the native forms only, so that the document builder, file, stream and
+        # pre-parsed forms are compared and any other DOM difference still alarms in the other half of the cases
+        if r.chance(1, 2):
+            nodom_unparsed = True
+            probes.append(byname["unparsed"])
+    else:
+        probes = [p for p in probes if p[0] not in ("src-info", "unparsed")] or [byname["union-order"]]
     if cls == "dtd-id" and "id-fn" not in [p[0] for p in probes]:
         probes.append(byname["id-fn"])
     if mode in ("xml16", "xml") and r.chance(1, 3) and "doe-long" not in [p[0] for p in probes]:
@@ -512,7 +556,7 @@ def gen_case(r, i, absdir):
         # html/text/indent results are compared as raw bytes across tree implementations: keep attribute order out of them
         probes = [p for p in probes if p[0] != "copy"] or [PROBES[0]]
     decls = "".join(p[2] for p in probes)
-    if cls == "strip":
+    if cls == "strip" or (cls == "dtd-rich" and r.chance(1, 2)):
         decls += '<xsl:strip-space elements="*"/><xsl:preserve-space elements="b"/>'
     inner = "".join(p[1] for p in probes)
     params = None
@@ -532,5 +576,6 @@ def gen_case(r, i, absdir):
     xsl = ('<?xml version="1.0"?>\n<xsl:stylesheet version="1.0" xmlns:xsl="http://www.w3.org/1999/XSL/Transform" '
            'xmlns:p="urn:p" xmlns:q="urn:q" exclude-result-prefixes="p q">\n%s%s\n<xsl:template match="/">%s</xsl:template>\n</xsl:stylesheet>\n'
            % (outdecl, decls, root))
-    return {"xml": xml, "xsl": xsl, "mode": mode, "cls": cls, "probes": [p[0] for p in probes] + (["params"] if params else []), "nodom": cls == "cdata-entity", "params": params, "notree": notree, "pi": pivar, "other_xsl": OTHER_XSL,
+    return {"xml": xml, "xsl": xsl, "mode": mode, "cls": cls, "probes": [p[0] for p in probes] + (["params"] if params else []), "nodom": cls == "cdata-entity" or nodom_unparsed, "params": params, "notree": notree, "pi": pivar, "needbase": cls == "dtd-rich",
+            "rel_xml": "<?xml version=\"1.0\"?>\n<rel>R-%d</rel>\n" % i if cls == "dtd-rich" else None, "other_xsl": OTHER_XSL,
             "out": (outdecl.split(" ", 1)[1].rstrip("/>").replace(" ", ",").replace('"', "") if outdecl else "-")}
